@@ -2,8 +2,11 @@ package props
 
 import (
 	"bytes"
+	"encoding/json"
 	"errors"
 	"fmt"
+	"os"
+	"strings"
 	"testing"
 	"time"
 
@@ -101,6 +104,7 @@ func drawStream(t *rapid.T) cli.StreamDef {
 		sd.Lead.Tracks[0], sd.Lead.Tracks[len(sd.Lead.Tracks)-1] = sd.Lead.Tracks[len(sd.Lead.Tracks)-1], sd.Lead.Tracks[0]
 	}
 	datePolicy := rapid.SampledFrom([]string{"all", "all", "some", "none"}).Draw(t, "dates")
+	dateSkew := rapid.IntRange(0, 3).Draw(t, "dateSkew") == 0
 	shape := func(pl *cli.PlaylistDef, label string) {
 		for s := 0; s < nSeg; s++ {
 			var sg cli.SegShape
@@ -127,6 +131,9 @@ func drawStream(t *rapid.T) cli.StreamDef {
 				sg.Date = true
 			case "some":
 				sg.Date = rapid.Bool().Draw(t, label+"date")
+			}
+			if dateSkew && label == "L" && sg.Date {
+				sg.DateSkewMs = rapid.SampledFrom([]int{0, 7, 20, -15, 120, 1000}).Draw(t, label+"skew") * (s + 1) / 2
 			}
 			pl.Segs = append(pl.Segs, sg)
 		}
@@ -190,10 +197,14 @@ func mulDivTrunc(v, m, d int64) int64 {
 	return secs*m + dec*m/d
 }
 
+// c10NoExclusions: the regression of known finding F21b runs without its exclusion.
+var c10NoExclusions = false
+
 type c10Stats struct {
 	tracks, rates int
 	wrap, bigBase bool
 	units         int
+	excluded      int // AbsoluteTime comparisons left out because of open finding F21
 }
 
 // checkDelivery compares what the client delivered with the stream (C10 oracle).
@@ -206,6 +217,12 @@ func checkDelivery(b *cli.Built, entry string, r *cli.RunResult, firstSeg func(b
 	}
 	lead := b.Lead
 	s0 := firstSeg(lead)
+	skewed := false
+	for _, sg := range lead.Def.Segs {
+		if sg.DateSkewMs != 0 {
+			skewed = true
+		}
+	}
 	leadRate := int64(90000)
 	if def.Container == "fmp4" {
 		leadRate = int64(lead.Def.Tracks[lead.LeadTrack].TimeScale)
@@ -312,6 +329,13 @@ func checkDelivery(b *cli.Built, entry string, r *cli.RunResult, firstSeg func(b
 			}
 			if e.bp == lead && anchor < 0 && g.AbsOK {
 				return fmt.Sprintf("track %d unit %d (segment %d): AbsoluteTime available although no segment up to it carries a date-time", i, k, w.Seg), st
+			}
+			if g.AbsOK && skewed && core.Open("F21b") && !c10NoExclusions && !(e.bp == lead && e.ti == lead.LeadTrack) {
+				// open finding F21: with dates that are not contiguous with media time only the
+				// leading track is anchored on the unit's own segment
+				st.excluded++
+				st.units++
+				continue
 			}
 			if g.AbsOK {
 				// any dated leading segment is a valid anchor (they are mutually consistent to 1 ms)
@@ -438,6 +462,9 @@ func execC10(sc c10Scenario) core.Outcome {
 	if r.StartErr != nil {
 		return fail(o, "Start failed: %v", r.StartErr)
 	}
+	if r.ChangedAfterDelivery > 0 {
+		return fail(o, "%d delivered units changed after their callback returned (first: %s): the slices handed to the application are reused", r.ChangedAfterDelivery, r.ChangedExample)
+	}
 	if !r.WaitReturned {
 		return fail(o, "the client did not finish a %d-segment stream with ENDLIST: Wait() yielded nothing within 30 s (%v)", len(b.Lead.SegURIs), r.WaitErr)
 	}
@@ -455,6 +482,13 @@ func execC10(sc c10Scenario) core.Outcome {
 		return fail(o, "%s", v)
 	}
 	o.NonTrivial = st.rates >= 2 || st.bigBase || st.wrap
+	o.Excluded = st.excluded
+	for _, sg := range sc.Stream.Lead.Segs {
+		if sg.DateSkewMs != 0 {
+			o.Labels = append(o.Labels, "dates-not-contiguous")
+			break
+		}
+	}
 	if st.rates >= 2 {
 		o.Labels = append(o.Labels, "multi-rate")
 	}
@@ -491,3 +525,27 @@ var propC10 = core.Prop[c10Scenario]{
 }
 
 func TestC10(t *testing.T) { core.Run(t, propC10) }
+
+// TestKnownF21b reproduces open finding F21b (the C10 face of F21): a stream whose segment dates
+// are not contiguous with media time; units of a track other than the leading one get an
+// AbsoluteTime from another segment's anchor.
+func TestKnownF21b(t *testing.T) {
+	b, err := os.ReadFile("../../known_scenarios/F21b.json")
+	if err != nil {
+		t.Fatal(err)
+	}
+	var f struct {
+		Scenario c10Scenario `json:"scenario"`
+	}
+	if err := json.Unmarshal(b, &f); err != nil {
+		t.Fatal(err)
+	}
+	c10NoExclusions = true
+	defer func() { c10NoExclusions = false }()
+	o := execC10(f.Scenario)
+	if strings.Contains(o.Violation, "AbsoluteTime") {
+		fmt.Println("STILL-REPRODUCES F21b:", o.Violation)
+		return
+	}
+	fmt.Printf("F21b does not reproduce: %q\n", o.Violation)
+}
